@@ -56,6 +56,9 @@ func c17Variants() []c17Variant {
 		// other build configurations of the same source tree (files can be build-constrained)
 		{Name: "goarch-386", Env: []string{"GOARCH=386"}, Print: "print", MayNotRun: true},
 		{Name: "tags-purego", Flags: []string{"-tags=purego"}, Print: "print"},
+		// instrumented builds a user may well ship or test with: pointer-arithmetic checks, the race detector
+		{Name: "checkptr", Flags: []string{"-gcflags=all=-d=checkptr"}, Print: "print"},
+		{Name: "race-build", Flags: []string{"-race"}, Print: "print", Thorough: true},
 		{Name: "cgo-disabled-netgo", Flags: []string{"-tags=netgo,osusergo"}, Env: []string{"CGO_ENABLED=0"}, Print: "print"},
 		{Name: "math-big-only", Imports: []string{"math/big"}, Pre: "var _ = big.NewInt", Print: "print", Thorough: true},
 		{Name: "encoding-json", Imports: []string{"encoding/json"}, Pre: "var _ = json.Marshal", Print: "print", Thorough: true},
@@ -116,8 +119,19 @@ func c17Source(v c17Variant, inputs []c17Input) string {
 
 	b.WriteString(`}
 
+// a program may make the documented mistake (empty DST), recover from the panic, and carry on
+func mistake() {
+	defer func() { _ = recover() }()
+	secp256k1.HashToScalar([]byte("x"), nil)
+}
+
 func run() {
+	mistake()
 	for i, in := range inputs {
+		if i == len(inputs)/2 {
+			mistake()
+		}
+
 		switch in[0] {
 		case "H2G":
 			emit(i, secp256k1.HashToGroup([]byte(in[1]), []byte(in[2])).Hex())
@@ -147,7 +161,7 @@ func init() {
 		Flavour: "plain",
 		Rule: "executions = plain main programs (not test binaries) generated into a scratch module with `replace github.com/bytemare/secp256k1 => /repo`, differing in the set of other imports " +
 			"(nothing else at all, fmt+os, crypto/sha512, crypto/md5+hash/crc32, crypto/sha256 itself, the crypto registry package only; thorough: math/big, encoding/json, crypto/tls), in calling the library from init(), " +
-			"in what they do to the crypto hash registry (a program that re-registers SHA-256 as a wrapper around the standard one), and in build configuration (-ldflags='-s -w', GOARCH=386 executed natively, -tags=purego, CGO_ENABLED=0 with netgo/osusergo; thorough: -trimpath, -gcflags=all=-l, the alternate toolchain go1.26.8). Each calls HashToGroup, EncodeToGroup and HashToScalar on 4 (msg, DST) pairs including an oversize DST. " +
+			"in what they do to the crypto hash registry (a program that re-registers SHA-256 as a wrapper around the standard one), and in build configuration (-ldflags='-s -w', -gcflags=all=-d=checkptr, GOARCH=386 executed natively, -tags=purego, CGO_ENABLED=0 with netgo/osusergo; thorough: -trimpath, -gcflags=all=-l, the alternate toolchain go1.26.8). Each calls HashToGroup, EncodeToGroup and HashToScalar on 4 (msg, DST) pairs including an oversize DST, and twice makes the documented mistake of an empty DST, recovers from the panic and carries on. " +
 			"Oracle: exit status 0, no panic text, and every printed value equal to the oracle's RFC 9380 value. The program importing nothing else is the minimum of the configuration lattice (adding imports can only add registrations), so it is the decisive one. " +
 			"evaluations = library calls observed across programs; distinct non-trivial = distinct (program, input) results checked.",
 		Assume: []string{"`go build` links exactly what the import graph requires; adding imports can only add hash registrations"},
